@@ -271,6 +271,13 @@ static void multi_stream(Src& s) {
         for (size_t j = 0; j < boundaries.size(); ++j) {
             if (boundaries[j] == cut && r.out == plain.substr(0, plain_boundaries[j])) ok = true;
         }
+        if (!ok && comp == osmium::io::file_compression::gzip && from_fd != SRC_BUFFER && !r.out.empty() && r.out.size() % 16384 == 0 && plain.compare(0, r.out.size(), r.out) == 0 &&
+            vp::known_open("F33")) {
+            // known finding F33 (open): zlib's gzread() does not notice the missing rest when the input runs out exactly where one of its
+            // output buffers is full; only this outcome is excluded, every other accepted truncation is still a violation
+            vp::count("known_finding_F33_truncation_where_a_zlib_output_buffer_is_full");
+            continue;
+        }
         if (!ok) {
             vp::fail("truncation-accepted", std::string{cname(comp)} + SRC_NAME[from_fd] + ": file cut at byte " + std::to_string(cut) + " of " + std::to_string(file.size()) + " was accepted without error (" + std::to_string(r.out.size()) + " of " + std::to_string(plain.size()) + " bytes delivered) | " + desc);
         }
@@ -455,6 +462,26 @@ VP_BUILTIN(F12_truncated_buffer_accepted) {
         for (size_t cut = 1; cut < a.comp.size(); ++cut) {
             ReadResult r = consume(gz ? osmium::io::file_compression::gzip : osmium::io::file_compression::bzip2, a.comp.substr(0, cut), false);
             VP_CHECK(r.threw, "truncation-accepted", (gz ? "gzip" : "bzip2") << " buffer cut at byte " << cut << " of " << a.comp.size() << " accepted without error (" << r.out.size() << " bytes delivered)");
+        }
+    }
+}
+
+VP_BUILTIN(F33_gzip_file_cut_where_zlibs_output_buffer_is_full) {
+    // every truncation of a gzip file must be reported. (It is not when the compressed input ends exactly where zlib's gzread() has
+    // filled one of its 16384-byte output buffers: gzread() then takes the end of the input for the end of the file.)
+    std::string p;
+    static const char* words[] = {"n1 v1 dV c1 t2015-01-01T00:00:00Z i1 uu T x1 y2\n", "highway=residential ", "0123456789", "\n", "way "};
+    unsigned r = 12345;
+    while (p.size() < 33629) {
+        r = r * 1103515245U + 12345U;
+        p += words[(r >> 16) % 5];
+    }
+    p.resize(33629);
+    for (int level : {1, 5, 9}) {
+        const std::string c = gz_compress(p, level);
+        for (size_t cut = 20; cut < c.size(); ++cut) {
+            ReadResult res = consume(osmium::io::file_compression::gzip, c.substr(0, cut), SRC_FD);
+            VP_CHECK(res.threw, "truncation-accepted", "gzip fd: file cut at byte " << cut << " of " << c.size() << " (level " << level << ") was accepted without error (" << res.out.size() << " of " << p.size() << " bytes delivered)");
         }
     }
 }
